@@ -22,7 +22,7 @@ WALL = {"quick": 900, "thorough": 7200}
 REQUIRED = {"strands_completed": 1500, "circular": 300, "json_circular": 100, "labelled_edges_copied": 300,
             "involution_checks": 1000, "unknown_rejected": 100, "single_nucleotide": 20, "end_to_end": 20,
             "end_to_end_via_seq_list": 5, "json_keys_not_from_zero": 50, "json_keys_not_consecutive": 50,
-            "json_resids_not_from_one": 50, "json_nodes_listed_out_of_order": 50,
+            "json_resids_not_from_one": 50, "json_nodes_listed_out_of_order": 50, "json_keys_not_in_residue_order": 50,
             "terminal_bases": 8}
 COMP = {"DA": "DT", "DT": "DA", "DG": "DC", "DC": "DG"}
 SWAP = {"5": "3", "3": "5", "": ""}
@@ -87,7 +87,11 @@ def make_strand(rng, workdir, res):
             bump(res, "json_keys_not_consecutive")
         if roff:
             bump(res, "json_resids_not_from_one")
-        key = lambda i: koff + i * kstep
+        perm = list(range(n))
+        if rng.random() < 0.3:
+            rng.shuffle(perm)                    # node ids in no relation to the order of the residue ids
+            bump(res, "json_keys_not_in_residue_order")
+        key = lambda i: koff + perm[i] * kstep
         listing = list(range(n))
         if rng.random() < 0.5:
             rng.shuffle(listing)                 # the order in which the file lists the residues is no information
